@@ -37,7 +37,8 @@ class XLFormula(XLType):
                     and (token.tvalue not in self.terms)
             ):
                 # Make sure we have a full address.
-                term = token.tvalue.replace('$', '')
+                sheet, sep, coord = token.tvalue.rpartition('!')
+                term = sheet + sep + coord.replace('$', '')
                 if '!' not in term:
                     term = f'{self.sheet_name}!{term}'
                 self.terms.append(term)
